@@ -50,13 +50,14 @@ Inductive cop :=
   (* the scripted service's database changes: strings removed, strings added *)
   | CDb (add del : list bytes).
 
-(** One [DNSFilter.CheckHost] call: the settings of the request, scripted
-    failure of either upstream, the name as spelled; observed: for each
+(** One [DNSFilter.CheckHost] call: the settings of the request, the type of
+    the question (round 6), scripted failure of either upstream, the name as
+    spelled; observed: for each
     checker whether the glue called it, with which name, and the question it
     sent (if any); the reason (0 not filtered, 1 safe browsing, 2 parental)
     and whether CheckHost returned an error. *)
 Inductive greq :=
-  | GReq (prot filt sbe pce : bool) (fail_sb fail_pc : bool) (spelled : bytes)
+  | GReq (prot filt sbe pce : bool) (qt : Z) (fail_sb fail_pc : bool) (spelled : bytes)
          (obs_sb obs_pc : option (bytes * option bytes)) (obs_reason : Z) (obs_err : bool).
 
 Inductive case :=
@@ -180,12 +181,12 @@ Fixpoint glue_replay (sfx_sb sfx_pc : bytes) (sha : bytes -> hash) (ps : bytes -
     (db_sb db_pc : list bytes) (order : list prefix) (reqs : list greq) (c1 c2 : cache) : list glue_out :=
   match reqs with
   | [] => []
-  | GReq p f s pc fs fp spelled _ _ _ _ :: r =>
+  | GReq p f s pc qt fs fp spelled _ _ _ _ :: r =>
       let st := {| st_protection := p; st_filtering := f; st_safebrowsing := s; st_parental := pc |} in
       let '((c1', c2'), out) :=
         glue_check_host (check sha ps sfx_sb (3600 * ns_sec) (raw_service db_sb fs) order [] 0)
                         (check sha ps sfx_pc (3600 * ns_sec) (raw_service db_pc fp) order [] 0)
-                        st spelled c1 c2 in
+                        st (Z.to_N qt) spelled c1 c2 in
       out :: glue_replay sfx_sb sfx_pc sha ps db_sb db_pc order r c1' c2'
   end.
 
@@ -199,7 +200,7 @@ Definition seen_agrees (m : option (bytes * check_out)) (o : option (bytes * opt
 Definition greq_ok (sha_tbl : list (bytes * bytes)) (ps_tbl : list (bytes * (bytes * bool)))
     (r : greq) (out : glue_out) : bool :=
   match r with
-  | GReq _ _ _ _ _ _ spelled osb opc oreason oerr =>
+  | GReq _ _ _ _ _ _ _ spelled osb opc oreason oerr =>
       let name := caller_name spelled in
       forallb (fun n => match lookup sha_tbl n with Some _ => true | None => false end)
               (names_to_hash (ps_of ps_tbl) name) &&
